@@ -172,12 +172,24 @@ def run(ctx: Ctx):
         zero_arm, scaled = (v_.body, v_.orelse)
         okt = ast.unparse(zero_arm) in ("0.0", "0") and isinstance(scaled, ast.BinOp) and isinstance(scaled.op, ast.Mult)
         if okt:
-            consts = [x.value for x in (scaled.left, scaled.right) if isinstance(x, ast.Constant) and isinstance(x.value, (int, float))]
-            others = [ast.unparse(x) for x in (scaled.left, scaled.right) if not isinstance(x, ast.Constant)]
-            okt = len(consts) == 1 and 0 < consts[0] <= 1e-9 and others == ["bin_capacity"] and ast.unparse(v_.test) == "integral"
+            # a product of: the capacity, a factor at the scale of one rounding (machine epsilon or a literal <= 1e-15),
+            # and at most the number of items (each subtraction rounds once)
+            factors = []
+            stack_ = [scaled]
+            while stack_:
+                e_ = stack_.pop()
+                if isinstance(e_, ast.BinOp) and isinstance(e_.op, ast.Mult):
+                    stack_ += [e_.left, e_.right]
+                else:
+                    factors.append(e_)
+            txt_ = sorted(ast.unparse(e_) for e_ in factors if not isinstance(e_, ast.Constant))
+            lits_ = [e_.value for e_ in factors if isinstance(e_, ast.Constant) and isinstance(e_.value, (int, float))]
+            tiny = ("sys.float_info.epsilon" in txt_) != (len(lits_) == 1 and 0 < lits_[0] <= 1e-15)
+            rest_ = [t_ for t_ in txt_ if t_ != "sys.float_info.epsilon"]
+            okt = tiny and rest_ in (["bin_capacity"], ["bin_capacity", "n"], ["bin_capacity", "len(item_sizes)"]) and ast.unparse(v_.test) == "integral"
     integ = [n for n in own_nodes(b.node) if isinstance(n, ast.Assign) and ast.unparse(n.targets[0]) == "integral"]
     okt = okt and len(integ) == 1 and ast.unparse(integ[0].value) == "float(bin_capacity).is_integer() and all((float(size).is_integer() for size in item_sizes))"
-    ctx.ob("C16-O3", "R14 GATE", b, "the rounding allowance of the fit tests is 0 for integral data and a constant of at most 1e-9 of the capacity otherwise", okt, "an allowance that grows with the data (or applies to integers) lets an item into a bin it does not fit: for large capacities the overfill exceeds a unit", node=tols[0] if tols else b.node)
+    ctx.ob("C16-O3", "R14 GATE", b, "the rounding allowance of the fit tests is 0 for integral data and otherwise the float error of a remainder: capacity times machine epsilon (or a literal of at most 1e-15), at most times the number of items", okt, "a wider allowance lets an item into a bin it does not fit (1e-12 of the capacity put 0.5 and 0.5000000000001 into one bin of 1.0; applied to integers it overfills by whole units from 1e12 on)", node=tols[0] if tols else b.node)
     # the variant flags are read from the *normalised* algorithm name (lower case, `_` -> `-`)
     tb_ = ast.unparse(b.node)
     norm = [n for n in own_nodes(b.node) if isinstance(n, ast.Assign) and ast.unparse(n.targets[0]) == "algo" and "algorithm" in names_in(n.value)]
@@ -321,12 +333,12 @@ def _v_weightless_items_presolved(tree):
 
 def _v_allowance_for_integers_too(tree):
     g = M.find_func(tree, "solve_bin_pack")
-    M.replace_expr(g, lambda e: isinstance(e, ast.IfExp) and M.src_is(e.test, "integral"), M.expr("1e-12 * bin_capacity"))
+    M.replace_expr(g, lambda e: isinstance(e, ast.IfExp) and M.src_is(e.test, "integral"), M.expr("n * sys.float_info.epsilon * bin_capacity"))
 
 
 def _v_allowance_relative_1e6(tree):
     g = M.find_func(tree, "solve_bin_pack")
-    M.replace_expr(g, lambda e: isinstance(e, ast.Constant) and e.value == 1e-12, M.expr("1e-06"))
+    M.replace_expr(g, lambda e: M.src_is(e, "sys.float_info.epsilon"), M.expr("1e-12"))
 
 
 def _v_no_allowance(tree):
@@ -336,7 +348,7 @@ def _v_no_allowance(tree):
 
 VARIANTS = [
     M.Variant("rounding allowance applied to integral data as well (overfill of a unit from capacity 1e12)", BP, _v_allowance_for_integers_too, "C16-O3"),
-    M.Variant("rounding allowance of 1e-6 of the capacity", BP, _v_allowance_relative_1e6, "C16-O3"),
+    M.Variant("rounding allowance of n * 1e-12 of the capacity (the first repair: 0.5 and 0.5000000000001 share a bin of 1.0)", BP, _v_allowance_relative_1e6, "C16-O3"),
     M.Variant("no rounding allowance: [0.3, 0.3, 0.3, 0.1] needs two bins of 1.0 (original defect)", BP, _v_no_allowance, "C16-O3"),
     M.Variant("weightless items settled outside the DP by the sign of the raw value (seed C16-O)", KN, _v_weightless_items_presolved, "C16-O2"),
 
